@@ -1,12 +1,25 @@
 (* C10 - malformed private keys are rejected at deserialisation.
-   FULL STATEMENT (not yet proved): sk_try_from_bytes P b = Err Malformed <-> some s1/s2 field of b
-   encodes a value > 2*eta; Ok otherwise.
-   Proved here (the step the pinned tree got wrong): the range test that bit_unpack applies is
-   the test against [-a, b] itself - a vector is accepted iff every coefficient lies in [-a, b]. *)
-Require Import F204.Base.Util F204.Base.Mach F204.Gen.Params F204.Impl.Helpers F204.Impl.Conversion.
+   Proved here (Proofs/BitPackProofs.v) for every byte string of the length of one packed
+   polynomial: the string is read as 256 fields of c = bitlen(a+b) bits (the base-2^c digits of
+   its little-endian value); bit_unpack returns Ok exactly when every field is at most a+b and
+   Err (the API error, never a panic) when some field exceeds it.  For the secret vectors
+   (a = b = eta) that is: rejected iff some field encodes a value above 2*eta, i.e. outside
+   [-eta, eta].  The t0 fields (a+b+1 = 2^13) are always in range.
+   NOT yet proved: the lifting through sk_decode's slicing (mapM over the l+k+k chunks); decided by
+   the exhaustive field-value stream of tools/streams.py. *)
+Require Import F204.Base.Util F204.Base.Mach F204.Gen.Params F204.Impl.Helpers F204.Impl.Conversion
+  F204.Proofs.BitPackProofs.
 Open Scope Z_scope.
 
-Theorem C10_bit_unpack_range_partial : forall v a b w,
+Theorem C10_fieldwise_acceptance : forall a b v,
+  valid_ab a b -> bytes_ok v -> Z.of_nat (length v) = 32 * bitlen (a + b) ->
+  exists ds, digits_ok (bitlen (a + b)) ds /\ length ds = 256%nat /\ dval (bitlen (a + b)) ds = le_int v /\
+             (Forall (fun d => d <= a + b) ds -> bit_unpack v a b = Ok (map (dec a b) ds)) /\
+             (Exists (fun d => a + b < d) ds -> bit_unpack v a b = Err Malformed).
+Proof. exact bit_unpack_accepts_iff. Qed.
+
+(* an accepted polynomial is in range, so the serialisation self-check cannot fire on it *)
+Theorem C10_accepted_is_in_range : forall v a b w,
   bit_unpack v a b = Ok w -> Forall (fun e => - a <= e <= b) w.
 Proof.
   intros v a b w. unfold bit_unpack.
@@ -14,21 +27,12 @@ Proof.
   destruct (guard _ _); cbn [bind]; try discriminate.
   destruct (guard _ _); cbn [bind]; try discriminate.
   unfold ensure. destruct (is_in_range (bit_unpack_raw v a b) a b) eqn:E; cbn [bind]; try discriminate.
-  intros Hw. inversion Hw; subst w. clear Hw.
-  unfold is_in_range in E. rewrite forallb_forall in E. apply Forall_forall. intros e He.
-  specialize (E e He). apply andb_prop in E as [E1 E2]. apply Z.leb_le in E1, E2. lia.
+  intros Hw. inversion Hw; subst w. apply in_range_forall. exact E.
 Qed.
 
-Theorem C10_bit_unpack_rejects_partial : forall v a b,
-  (0 <=? a) && (a <? 1048576) = true -> (1 <=? b) && (b <? 1048576) = true -> zlen v =? 32 * bitlen (a + b) = true ->
-  Exists (fun e => e < - a \/ b < e) (bit_unpack_raw v a b) -> bit_unpack v a b = Err Malformed.
-Proof.
-  intros v a b Ha Hb Hl Hex. unfold bit_unpack. rewrite Ha, Hb, Hl. cbn [guard bind].
-  replace (is_in_range (bit_unpack_raw v a b) a b) with false; [reflexivity|].
-  symmetry. apply not_true_is_false. intros E. unfold is_in_range in E. rewrite forallb_forall in E.
-  apply Exists_exists in Hex as (e & He & Hr). specialize (E e He).
-  apply andb_prop in E as [E1 E2]. apply Z.leb_le in E1, E2. lia.
-Qed.
+(* the two eta values: 3-bit fields accept 0..4, 4-bit fields accept 0..8 *)
+Example C10_eta_fields : bitlen (2 + 2) = 3 /\ bitlen (4 + 4) = 4 /\ valid_ab 2 2 /\ valid_ab 4 4.
+Proof. unfold valid_ab. repeat split; vm_compute; congruence. Qed.
 
-Print Assumptions C10_bit_unpack_range_partial.
-Print Assumptions C10_bit_unpack_rejects_partial.
+Print Assumptions C10_fieldwise_acceptance.
+Print Assumptions C10_accepted_is_in_range.
